@@ -37,6 +37,10 @@ pub enum CorruptSpec {
     PoolGrow(u32),
     /// a byte of the string data gets its high bit set (selector)
     DataHighBit(u32),
+    /// lost write: a 512-byte sector keeps the content it had in an earlier
+    /// image of the same run (sector position in ppm; applied by the executor,
+    /// which keeps the earlier images)
+    StaleSector(u32),
 }
 
 impl CorruptSpec {
@@ -57,6 +61,7 @@ impl CorruptSpec {
             CorruptSpec::AddEntry(..) => "corrupt_odd_entry_name",
             CorruptSpec::PoolGrow(..) => "corrupt_pool_grown",
             CorruptSpec::DataHighBit(..) => "corrupt_string_data_high_bit",
+            CorruptSpec::StaleSector(..) => "corrupt_lost_write_stale_sector",
         }
     }
 
@@ -132,6 +137,7 @@ impl CorruptSpec {
                 image[d..d + 512].copy_from_slice(&src);
                 true
             }
+            CorruptSpec::StaleSector(_) => false, // needs the earlier image: see apply_stale
             CorruptSpec::RandomBytes(len, seed) => {
                 let mut r = Prng::new(*seed as u64);
                 *image = (0..*len).map(|_| r.next_u64() as u8).collect();
@@ -139,6 +145,24 @@ impl CorruptSpec {
             }
             _ => self.apply_stream_layer(image, rng),
         }
+    }
+
+    /// Lost write: one sector of `image` reverts to what `earlier` held there.
+    pub fn apply_stale(ppm: u32, image: &mut Vec<u8>, earlier: &[u8]) -> bool {
+        let n = image.len().min(earlier.len()) / 512;
+        if n == 0 {
+            return false;
+        }
+        // prefer a sector that actually differs
+        let start = ((ppm as u64 % 1_000_000) * n as u64 / 1_000_000) as usize;
+        for k in 0..n {
+            let s = ((start + k) % n) * 512;
+            if image[s..s + 512] != earlier[s..s + 512] {
+                image[s..s + 512].copy_from_slice(&earlier[s..s + 512]);
+                return true;
+            }
+        }
+        false
     }
 
     fn apply_stream_layer(&self, image: &mut Vec<u8>, rng: &mut Prng) -> bool {
